@@ -197,10 +197,17 @@ func genCase(r *kit.Rand, i int) []string {
 		cur[g] = tgt
 		return vecFor(r, tgt, 12)
 	}
+	// task restarts (per-ID state is restored from the topic): only where the last delivered event always carries the
+	// ID's current level, i.e. without flap suppression and without withheld recoveries (what a restart resumes at
+	// otherwise is C08's subject)
+	restarts := !flap && !noRec && r.Chance(1, 4)
 	for k := 0; k < size; k++ {
 		g := r.Intn(nG)
 		gid := kit.Esc(gids[g])
 		stepT()
+		if restarts && k > 0 && r.Chance(1, 6) {
+			ops = append(ops, "restart")
+		}
 		if form == "s" {
 			ops = append(ops, fmt.Sprintf("p %s %d %s", gid, tm, nextVec(g)))
 			continue
